@@ -1,4 +1,5 @@
 import SJ.Proofs.Tables
+import SJ.Proofs.ParseWF
 import SJ.Proofs.Bridge
 /-
 C02 — Accepted documents are exposed with exact structure, order and values.
@@ -47,5 +48,20 @@ theorem C02_advance_elem (pj : PJ) (i : Iter) (v : LVal) (vs : LVals) (lo hi : N
       (∃ w, word pj v.pos = some w ∧ i'.t = tagOf w ∧ i'.cur = payloadOf w ∧ tagOf w = WalkLayout.tagOfL v) ∧
       0 ≤ i'.addNext ∧ (i'.off : Int) + i'.addNext = v.fin ∧ OkElems pj vs v.fin hi :=
   WalkLayout.advance_elem pj i v vs lo hi h hhi ha hlo
+
+
+open SJ.Layout SJ.ParseDefs in
+/-- **Read-back of a parse result is exactly the document stage 2 built.** For every accepted input the tape holds a
+    located, tight document `lvs` (the ghost recorded while the machine ran: values in the order their tokens were
+    consumed, members with their keys, each attached to the container open at that moment), and the walk through the
+    public iterator API returns precisely `lvs` erased — nothing dropped, duplicated, reordered or re-parented — which
+    is also what the reference decoder reads off the tape. That `lvs` is the value the RFC grammar assigns to the text
+    is `ParseSpec` (C01/C02, in progress). -/
+theorem C02_parse_readback (cfg : Cfg) (nd : Bool) (input : Bytes) (pj : PJ) (hsz : SizeOK (trimSpace input))
+    (h : parseAny cfg nd input = .ok pj) :
+    ∃ lvs : List LVal, WalkLayout.OkRoots pj lvs 0 ∧ (∀ v ∈ lvs, WalkLayout.Tight v) ∧
+      ∃ ds, owalk pj = .ok ds ∧ decodeTapeD pj = some ds ∧ ds = (lvs.map erase).map DecodeSound.toOVal := by
+  obtain ⟨lvs, h1, h2, _, _, _, hd, _⟩ := SJ.ParseWF.parse_wf cfg nd input pj hsz h
+  exact ⟨lvs, h1, h2, hd⟩
 
 end SJ.Properties.C02
